@@ -36,10 +36,18 @@ def generic_draws(e, seed, n, tag="c09"):
             elif isinstance(x, (list, tuple)) and isinstance(kw.get("n"), int) and len(x) != kw["n"]:
                 out.add((k_, "length differs from n"))
         return out
+    # a closed form documented on a sub-range only (theta = 1 ...): half of the settings are taken where it exists, and among
+    # those one with several iterations (one iteration cannot tell a loop that restarts from the starting point)
+    ref_when = e.get("ref_when") if tag != "c09" else None
+
+    def bonus(c, j):
+        if ref_when is None or j % 2:
+            return 0.0
+        return (20.0 if ref_when(c) else 0.0) + (5.0 if isinstance(c.get("n"), int) and c["n"] >= 2 else 0.0)
     out, seen = [], set()
     for j in range(n):
         rest = [c for c in cands if not any(c is o for o in out)]
-        best = max(rest, key=lambda c: 3.0 * len({s_ for s_ in sides(c) if s_[1] != "at"} - seen) + score(c, j % 2 == 0))
+        best = max(rest, key=lambda c: 3.0 * len({s_ for s_ in sides(c) if s_[1] != "at"} - seen) + score(c, j % 2 == 0) + bonus(c, j))
         out.append(best)
         seen |= sides(best)
     return out
